@@ -382,7 +382,8 @@ class _RaisedExc(Exception):
 BUILTIN_EXC = {'RuntimeWarning', 'UserWarning', 'DeprecationWarning', 'Warning', 'FutureWarning',
                'ValueError', 'KeyError', 'TypeError', 'AttributeError', 'RuntimeError',
                'NotImplementedError', 'IndexError', 'Exception', 'ZeroDivisionError',
-               'NameError'}
+               'NameError', 'UnboundLocalError', 'AssertionError', 'StopIteration', 'LookupError', 'ArithmeticError',
+               'OSError', 'IOError', 'FileNotFoundError'}
 
 
 # decorators whose effect on calls is modelled (binding of methods, memoisation) or nil (metadata, abstractness)
@@ -395,6 +396,18 @@ HAZARD_LOG = []      # (kind, node, relpath): every hazard any interpreter of th
 VISITED = set()      # qualified names of every function of the analysed package that was interpreted in this process
 COVER = None         # development aid (tools/coverage.py): set of (module name, line) of the statements interpreted
 ARGCOVER = None      # development aid: (module name, function line) -> {parameter: set of values it was bound to}
+
+
+def own_nodes(fn):
+    """the nodes of a function's own body, without the bodies of functions, lambdas and classes nested in it"""
+    stack = list(fn.body) if isinstance(fn.body, list) else [fn.body]
+    while stack:
+        nd = stack.pop()
+        yield nd
+        for ch in ast.iter_child_nodes(nd):
+            if isinstance(ch, (ast.FunctionDef, ast.AsyncFunctionDef, ast.Lambda, ast.ClassDef)):
+                continue
+            stack.append(ch)
 
 
 def numeric_table(module, node):
@@ -450,6 +463,8 @@ class Interp:
         self.depth = 0
         self.stack = []               # ids of the FunctionDefs being inlined (recursion guard)
         self.warnings = []
+        self.lazy_atoms = set()    # atoms created for attributes an open object was never given
+        self.np_syms = {}          # atom name -> 'int64' | 'float32' | 'float64': symbols the rule declares numpy scalars
         self.suppressed_warnings = []       # warnings.warn calls that a filter in force turned into nothing
         self.warn_filters = []              # newest first, like warnings.filters
         self.calls = []               # inlined (qualname) trace
@@ -623,8 +638,18 @@ class Interp:
     def _install_module_filters(self):
         """warnings.filterwarnings / simplefilter calls at module level of the analysed package act process-wide from
         import on: they are part of the state every function runs in"""
+        def module_level(body):
+            # statements run at import, incl. those under a module-level if / try / with: a filter installed under a
+            # condition is taken as installed (whether the condition holds depends on how the interpreter was started)
+            for st_ in body:
+                yield st_
+                if isinstance(st_, (ast.If, ast.Try, ast.With)):
+                    for attr_ in ('body', 'orelse', 'finalbody'):
+                        yield from module_level(getattr(st_, attr_, None) or [])
+                    for h_ in getattr(st_, 'handlers', None) or []:
+                        yield from module_level(h_.body)
         for m in self.repo.modules.values():
-            for st in m.tree.body:
+            for st in module_level(m.tree.body):
                 if not (isinstance(st, ast.Expr) and isinstance(st.value, ast.Call)):
                     continue
                 f = st.value.func
@@ -724,9 +749,10 @@ class Interp:
                                                                   if isinstance(env[a_.arg], ListV) else ''))
         try:
             fr = Frame(self, module, env, owner, self_obj if self_obj is not None else frame_self)
+            fr.fn = fn
             is_gen = self._is_gen.get(id(fn))
             if is_gen is None:
-                is_gen = any(isinstance(x, (ast.Yield, ast.YieldFrom)) for x in ast.walk(fn))
+                is_gen = any(isinstance(x, (ast.Yield, ast.YieldFrom)) for x in own_nodes(fn))
                 self._is_gen[id(fn)] = is_gen
             if is_gen:
                 fr.yields = []
@@ -1036,6 +1062,12 @@ class Interp:
                     and b not in self.sym_strings:
                 return a + b
             return self.plain(self.seg(a) + self.seg(b))
+        if op == '*' and isinstance(a, str) and a not in self.sym_strings and (isinstance(b, bool) or (
+                isinstance(b, Rat) and b.iszero())):
+            return a if (b is True) else ''                # text * bool, text * 0
+        if op == '*' and isinstance(b, str) and b not in self.sym_strings and (isinstance(a, bool) or (
+                isinstance(a, Rat) and a.iszero())):
+            return b if (a is True) else ''
         if op == '*' and isinstance(a, str) and isinstance(b, Rat) and b.is_const() \
                 and b.const_value().denominator == 1 and a not in self.sym_strings:
             return a * max(0, int(b.const_value()))
@@ -1123,6 +1155,12 @@ class Interp:
         """decide a comparison or raise Unsupported."""
         if op in ('is', 'is not'):
             if a is None or b is None:
+                for x_ in (a, b):
+                    if isinstance(x_, Rat) and x_.is_monomial() and len(x_.atoms()) == 1 and \
+                            next(iter(x_.atoms())) in self.lazy_atoms and x_.eq(Rat.atom(next(iter(x_.atoms())))):
+                        # an attribute the rule never set, standing for "some number": whether the program's object
+                        # has None there is not known
+                        raise Unsupported('test for None of the attribute %s, which the rule left open' % (x_,), node)
                 res = (a is None and b is None)
                 return res if op == 'is' else not res
             if isinstance(a, bool) or isinstance(b, bool):
@@ -1215,13 +1253,22 @@ class Interp:
             elif isinstance(b, str) and isinstance(a, str):
                 res = a in b
                 return res if op == 'in' else not res
+            elif isinstance(b, Obj) and '__contains__' in b.opaque_methods:
+                res = self.truth(b.opaque_methods['__contains__'](self, b, [a], {}), node)
+                return res if op == 'in' else not res
             else:
                 raise Unsupported('membership test on %r' % (b,))
-            if isinstance(a, str) or a is None:
+            if a is None:
+                res = any(x is None for x in items)
+                return res if op == 'in' else not res
+            if isinstance(a, str):
                 res = any(isinstance(x, str) and x == a for x in items)
                 return res if op == 'in' else not res
             if isinstance(a, Obj):
                 res = any(x is a for x in items)       # identity (object equality is not modelled)
+                return res if op == 'in' else not res
+            if isinstance(a, ListV) and isinstance(b, DictV) and not getattr(a, 'is_array', False):
+                res = b.nkey(a) in b.d                  # a tuple as key: equal entry by entry <=> same normal form
                 return res if op == 'in' else not res
             if isinstance(a, Rat):
                 res = False
@@ -1881,9 +1928,7 @@ class Frame:
                         sync_reshape(base)
                         return
                     raise _RaisedExc(Raised('ValueError', target))      # shape mismatch in row assignment
-                if getattr(cur, 'dtype', None) in ('caller', 'int') and not (
-                        isinstance(v, Rat) and v.is_const() and v.const_value().denominator == 1):
-                    I.dtype_hazards.append((target, self.module.relpath))
+                self.int_store(cur, v, target)
                 cur.items[self.index(last, len(cur), target)] = v
                 sync_reshape(cur)
                 sync_reshape(base)
@@ -1907,9 +1952,7 @@ class Frame:
                 i = self.index(idx, len(base), target)
                 if self.in_vec_loop:
                     raise Unsupported('indexed store inside vector loop', target, self.module.relpath)
-                if getattr(base, 'dtype', None) in ('caller', 'int') and not (
-                        isinstance(v, Rat) and v.is_const() and v.const_value().denominator == 1):
-                    I.dtype_hazards.append((target, self.module.relpath))
+                self.int_store(base, v, target)
                 base.items[i] = v
                 sync_reshape(base)
                 return
@@ -1934,6 +1977,8 @@ class Frame:
         raise Unsupported('assignment target', target, self.module.relpath)
 
     def index(self, idx, n, node=None):
+        if isinstance(idx, bool):
+            idx = C(1 if idx else 0)            # bool is an int: seq[False], seq[True]
         if isinstance(idx, Rat) and idx.is_const() and idx.const_value().denominator == 1:
             i = int(idx.const_value())
             if i < 0:
@@ -2031,9 +2076,18 @@ class Frame:
             return v
         if isinstance(n, ast.Compare):
             left = self.ev(n.left)
+            ln = n.left
             for op, rn in zip(n.ops, n.comparators):
                 right = self.ev(rn)
                 o = _CMP[type(op)]
+                if o in ('is', 'is not') and len(n.ops) == 1:
+                    # the result of a numpy function is a numpy value: never the singleton True / False
+                    for val_, node_, other_ in ((left, ln, right), (right, rn, left)):
+                        if isinstance(other_, bool) and isinstance(val_, bool) and isinstance(node_, ast.Call):
+                            dn_ = self.dotted(node_.func)
+                            if dn_ is not None and dn_.split('.')[0] == 'numpy':
+                                return o == 'is not'
+                ln = rn
                 if o in ('<', '<=', '>', '>=') and (
                         (isinstance(left, ListV) and getattr(left, 'is_array', False)) or
                         (isinstance(right, ListV) and getattr(right, 'is_array', False))):
@@ -2137,11 +2191,12 @@ class Frame:
                     return
                 g_ = gens[0]
                 for item in sub.iter_items(sub.ev(g_.iter), n):
-                    sub2 = Frame(self.I, self.module, dict(sub.env), self.owner, self.self_obj)
-                    sub2.assign(g_.target, item)
-                    if all(self.I.truth(sub2.ev(c_), c_) for c_ in g_.ifs):
-                        rec_d(sub2, gens[1:])
-            rec_d(Frame(self.I, self.module, dict(self.env), self.owner, self.self_obj), list(n.generators))
+                    sub.assign(g_.target, item)
+                    if all(self.I.truth(sub.ev(c_), c_) for c_ in g_.ifs):
+                        rec_d(sub, gens[1:])
+            # a comprehension has ONE scope of its own: its loop variables are rebound in it on every round (a lambda
+            # made inside sees the last value), reads fall through to the enclosing scope, writes do not leak out
+            rec_d(Frame(self.I, self.module, Env(self.env, {}), self.owner, self.self_obj), list(n.generators))
             return out
         if isinstance(n, ast.SetComp):
             r_ = self.listcomp(n)
@@ -2228,18 +2283,17 @@ class Frame:
                 if isinstance(it_, Elem):
                     raise Unsupported('nested comprehension over a vector of unknown length', n, self.module.relpath)
                 for item in sub.iter_items(it_, n):
-                    sub2 = Frame(self.I, self.module, dict(sub.env), self.owner, self.self_obj)
-                    sub2.assign(g_.target, item)
-                    if all(self.I.truth(sub2.ev(cond), cond) for cond in g_.ifs):
-                        rec(sub2, gens[1:])
-            rec(Frame(self.I, self.module, dict(self.env), self.owner, self.self_obj), list(n.generators))
+                    sub.assign(g_.target, item)
+                    if all(self.I.truth(sub.ev(cond), cond) for cond in g_.ifs):
+                        rec(sub, gens[1:])
+            rec(Frame(self.I, self.module, Env(self.env, {}), self.owner, self.self_obj), list(n.generators))
             return ListV(out)
         g = n.generators[0]
         it = self.ev(g.iter)
         if isinstance(it, ZipV) and it.vector:
             it = Elem(it.generic())
         if isinstance(it, Elem):
-            sub = Frame(self.I, self.module, dict(self.env), self.owner, self.self_obj)
+            sub = Frame(self.I, self.module, Env(self.env, {}), self.owner, self.self_obj)
             sub.assign(g.target, it.r)
             selected = None
             for cond in g.ifs:
@@ -2256,8 +2310,8 @@ class Frame:
                 sub.assign(g.target, Rat.atom(_real_roots(self.I, selected)))
             return Elem(sub.ev(n.elt))
         out = []
+        sub = Frame(self.I, self.module, Env(self.env, {}), self.owner, self.self_obj)       # one scope (see above)
         for item in self.iter_items(it, n):
-            sub = Frame(self.I, self.module, dict(self.env), self.owner, self.self_obj)
             sub.assign(g.target, item)
             if all(self.I.truth(sub.ev(cond), cond) for cond in g.ifs):
                 out.append(sub.ev(n.elt))
@@ -2390,6 +2444,12 @@ class Frame:
         if isinstance(base, Obj) and base.ci is not None and \
                 self.I.repo.find_method(base.ci, '__getitem__', missing_ok=True):
             return self.I.call_method(base, '__getitem__', [idx], {})
+        if isinstance(base, Obj) and '__getitem__' in base.opaque_methods:
+            return base.opaque_methods['__getitem__'](self.I, base, [idx], {})      # a stand-in object of the rule
+        if isinstance(base, Obj) and base.ci is None and not base.closed:
+            # an open stand-in object: whether the real object can be subscripted is not known
+            raise Unsupported('subscript of the stand-in object %s (no __getitem__ given)' % base.name, n,
+                              self.module.relpath)
         if isinstance(base, Obj) or base is None or isinstance(base, bool):
             raise _RaisedExc(Raised('TypeError', n))        # not subscriptable
         if isinstance(base, (ListV, str)) and isinstance(idx, str):
@@ -2545,6 +2605,7 @@ class Frame:
             raise _RaisedExc(Raised('AttributeError', node))
         # lazily created parameter atom
         name = '%s.%s' % (obj.name, attr)
+        I.lazy_atoms.add(name)
         if attr in obj.vec_attrs:
             v = Elem(I.D.sym(name))
         else:
@@ -2557,8 +2618,10 @@ class Frame:
         caller's container: anything that is not an integer constant is truncated"""
         if getattr(buf, 'dtype', None) in ('caller', 'int'):
             vals = values if isinstance(values, list) else [values]
-            if not all(isinstance(x, Rat) and (x.iszero() or (x.is_const() and x.const_value().denominator == 1))
-                       for x in vals):
+            if not all(isinstance(x, ArgV) or (isinstance(x, Rat) and (
+                    x.iszero() or (x.is_const() and x.const_value().denominator == 1) or
+                    (x.integer_coefficients() and x.atoms() and all(a_ in self.I.int_syms for a_ in x.atoms()))))
+                    for x in vals):
                 self.I.dtype_hazards.append((target, self.module.relpath))
 
     def global_name(self, n):
@@ -2574,6 +2637,8 @@ class Frame:
             if isinstance(ALL_PY_BUILTINS[name], type) and issubclass(ALL_PY_BUILTINS[name], BaseException):
                 BUILTIN_EXC.add(name)
             return Builtin(name)
+        if name == '__name__':
+            return self.module.name
         r = I.repo.lookup(self.module, name)
         if r is None:
             al = self.alias(name)
@@ -2581,6 +2646,11 @@ class Frame:
                 if al[0] == 'object' and '%s.%s' % (al[1], al[2]) in I.native:
                     return NativeRef('%s.%s' % (al[1], al[2]))
                 return ExtRef(al)
+            fn_ = getattr(self, 'fn', None)
+            if fn_ is not None and any(isinstance(x_, ast.Name) and x_.id == name and isinstance(x_.ctx, ast.Store)
+                                       for x_ in own_nodes(fn_)):
+                # a local variable of this function that has not been assigned yet
+                raise _RaisedExc(Raised('UnboundLocalError', n))
             raise _RaisedExc(Raised('NameError', n))
         return self.entity(r, n)
 
@@ -2857,6 +2927,12 @@ class ZipV:
             raise Unsupported('enumerate over a vector of unknown length')
         return ListV(vals)
 
+    def take_all(self):
+        """everything that is left, taken: a zip / enumerate object is one-shot"""
+        got = list(self.items())
+        self._rest = []
+        return got
+
     def items(self):
         if getattr(self, '_rest', None) is not None:
             return self._rest               # partly consumed by next()
@@ -2867,7 +2943,7 @@ class ZipV:
                     raise Unsupported('zip over an iterator whose position is not known')
                 lists.append(s.items)
             elif isinstance(s, ZipV):
-                lists.append(s.items())
+                lists.append(s.take_all())
             elif isinstance(s, DictV):
                 lists.append(list(s.d.keys()))
             elif isinstance(s, Obj) and self.frame is not None:
@@ -2968,7 +3044,14 @@ def builtin_call(I, fr, name, args, kwargs, n):
         except Unsupported:
             raise _RaisedExc(Raised('ValueError', n))
     if name == 'locals':
-        return DictV({k: v for k, v in fr.env.items() if isinstance(k, str)})
+        return DictV({k: v for k, v in fr.env.items() if isinstance(k, str) and not k.startswith('\x00')})
+    if name == 'format' and 1 <= len(args) <= 2 and not kwargs:
+        spec = args[1] if len(args) > 1 else ''
+        if not isinstance(spec, str) or spec in I.sym_strings:
+            raise Unsupported('format() with a symbolic format spec', n)
+        return I.plain(I.format_piece(args[0], spec))          # format(v, spec) is '{:spec}'.format(v)
+    if name == 'vars' and len(args) == 1 and isinstance(args[0], Obj) and not kwargs:
+        return fr.obj_attr(args[0], '__dict__', n)
     if name == 'round':
         v = args[0]
         if isinstance(v, Rat) and (v.is_const() or v.iszero()) and len(args) == 1:
@@ -3019,6 +3102,8 @@ def builtin_call(I, fr, name, args, kwargs, n):
             I.files[fname] = []
         return fo
     if name in ('float', 'int'):
+        if len(args) != 1 or kwargs:
+            raise Unsupported('%s() with a base or keyword arguments' % name, n)
         v = args[0]
         while isinstance(v, ListV) and len(v) == 1:
             v = v.items[0]          # float() of a size-1 array is its element
@@ -3128,7 +3213,7 @@ def builtin_call(I, fr, name, args, kwargs, n):
         if isinstance(v, ZipV) and v.vector:
             return Elem(v.generic())        # vectors of unknown (equal) length zipped: a vector of tuples
         if isinstance(v, ZipV):
-            return ListV(v.items())
+            return ListV(v.take_all())
         if isinstance(v, DictV):
             return ListV([v.okey(k) for k in v.d.keys()])
         if isinstance(v, str) and v not in I.sym_strings:
@@ -3162,7 +3247,14 @@ def builtin_call(I, fr, name, args, kwargs, n):
                     raise Unsupported('isinstance(np.ndarray) of a vector that may be a list or an array', n)
                 res = res or (isinstance(v, ListV) and bool(getattr(v, 'is_array', False)))
             elif tn in ('float', 'int'):
-                if isinstance(v, Rat):
+                if isinstance(v, bool):
+                    res = res or tn == 'int'            # bool is a subclass of int
+                elif isinstance(v, Rat) and v.atoms() and all(a_ in I.np_syms for a_ in v.atoms()) and \
+                        len({I.np_syms[a_] for a_ in v.atoms()}) == 1:
+                    # a quantity the rule declared to be a numpy scalar: np.float64 is a float, np.int64 and
+                    # np.float32 are neither int nor float
+                    res = res or (tn == 'float' and I.np_syms[next(iter(v.atoms()))] == 'float64')
+                elif isinstance(v, Rat):
                     both = {'float', 'int'} <= {(y.name if isinstance(y, Builtin) else y) for y in ts}
                     if both:
                         res = True
@@ -3173,8 +3265,8 @@ def builtin_call(I, fr, name, args, kwargs, n):
                         raise Unsupported('isinstance(%s) of a number whose Python type is not tracked' % tn, n)
                     else:
                         res = res or tn == 'float'      # symbolic quantities stand for Python floats (assumption)
-            elif tn == 'Number':
-                res = res or isinstance(v, Rat) or (isinstance(v, Obj) and 'Number' in v.isa)
+            elif tn in ('Number', 'Real', 'Complex'):
+                res = res or isinstance(v, (Rat, bool)) or (isinstance(v, Obj) and 'Number' in v.isa)
             elif tn == 'bool':
                 res = res or isinstance(v, bool)
             elif tn in ('set', 'frozenset', 'bytes', 'complex'):
@@ -3185,6 +3277,19 @@ def builtin_call(I, fr, name, args, kwargs, n):
     if name in ('min', 'max') and len(args) == 1 and not kwargs and isinstance(args[0], Elem) and \
             isinstance(args[0].r, Rat) and _root_atom(I, args[0].r) is None:
         return I.D.sym('%s{%r}' % (name.upper(), args[0].r))        # extremum of a vector of unknown length
+    if name in ('min', 'max') and set(kwargs) == {'key'} and len(args) == 1:
+        # min(seq, key=f): the first entry whose key is the extremum; for seq = 0..n-1 that is the arg-extremum of
+        # the keys (kept symbolic, with its candidates, when the keys cannot be ordered)
+        seq = list(fr.iter_items(args[0], n))
+        if not seq:
+            raise _RaisedExc(Raised('ValueError', n))
+        keys = [fr.apply(kwargs['key'], [x], {}, n) for x in seq]
+        pos = I.native['numpy.arg' + name](I, fr, [ListV(keys)], {}, n)
+        if isinstance(pos, Rat):
+            return seq[int(pos.const_value())]
+        if all(isinstance(x, Rat) and x.eq(C(k_)) for k_, x in enumerate(seq)):
+            return pos
+        raise Unsupported('%s(..., key=...) whose keys cannot be ordered' % name, n)
     if name in ('min', 'max'):
         # the builtin and numpy's reduction agree on numbers: one model (incl. the uninterpreted extremum)
         if kwargs:
@@ -3244,6 +3349,12 @@ def builtin_call(I, fr, name, args, kwargs, n):
         if isinstance(seq, Elem):
             return Elem(fr.apply(args[0], [seq.r], {}, n))
         return ListV([fr.apply(args[0], [x], {}, n) for x in fr.iter_items(seq, n)])
+    if name == 'map' and len(args) > 2 and not kwargs:
+        # map(f, a, b, ...): stops with the shortest argument (evaluated now; rules only see it consumed to the end)
+        cols = [list(fr.iter_items(a_, n)) for a_ in args[1:]]
+        if any(isinstance(a_, Elem) for a_ in args[1:]):
+            raise Unsupported('map over several vectors of unknown length', n)
+        return ListV([fr.apply(args[0], list(row), {}, n) for row in zip(*cols)])
     if name == 'filter' and len(args) == 2:
         f_ = args[0]
         return ListV([x for x in fr.iter_items(args[1], n)
@@ -3325,10 +3436,34 @@ def builtin_call(I, fr, name, args, kwargs, n):
             return ListV(list(reversed(out_)) if rev else out_)
         raise Unsupported('sorted() of non-string items', n)
     if name == 'print':
+        f_ = kwargs.get('file')
+        kwargs.get('flush')
+        if f_ is None:
+            kwargs.get('sep'), kwargs.get('end')
+            return None                 # standard output is not observed
+        if not (isinstance(f_, Obj) and 'write' in f_.opaque_methods):
+            raise Unsupported('print(file=%r)' % (f_,), n)
+        sep, end = kwargs.get('sep', ' '), kwargs.get('end', '\n')
+        sep = ' ' if sep is None else sep
+        end = '\n' if end is None else end
+        out = SegStr()
+        for k_, a_ in enumerate(args):
+            t_ = builtin_call(I, fr, 'str', [a_], {}, n)
+            if k_:
+                out = out + I.seg(sep)
+            out = out + I.seg(t_)
+        out = out + I.seg(end)
+        f_.opaque_methods['write'](I, f_, [I.plain(out)], {})
         return None
     if name == 'str':
         if args and isinstance(args[0], ClassInfo):
             return "<class '%s'>" % args[0].qual
+        if args and isinstance(args[0], TypeOf) and isinstance(args[0].v, Obj) and args[0].v.ci is not None:
+            return "<class '%s'>" % args[0].v.ci.qual       # str(type(obj)) == str(obj.__class__)
+        if args and args[0] is None:
+            return 'None'
+        if args and isinstance(args[0], bool):
+            return 'True' if args[0] else 'False'
         if args and isinstance(args[0], (str, SegStr)):
             return args[0]
         if args and isinstance(args[0], Rat):
@@ -3342,6 +3477,9 @@ def builtin_call(I, fr, name, args, kwargs, n):
                         return r
                 except Unsupported:
                     pass        # symbolic content: the text itself is not modelled
+        if not (args and isinstance(args[0], Obj)):
+            # a text without abstract spelling: harmless inside a message, nowhere else (checked at the end of the run)
+            PLACEHOLDER_LOG.append((CUR_REL[0], getattr(n, 'lineno', 0)))
         return '<str>'
     if name == 'dict':
         d = DictV()
@@ -3351,7 +3489,7 @@ def builtin_call(I, fr, name, args, kwargs, n):
                 d.d.update(a0.d)
                 d.keyobj.update(a0.keyobj)
             elif isinstance(a0, ZipV) and not a0.vector:
-                for p_ in a0.items():
+                for p_ in a0.take_all():
                     if len(p_.items) != 2:
                         raise _RaisedExc(Raised('ValueError', n))
                     d.d[d.nkey(p_.items[0])] = p_.items[1]
@@ -3500,9 +3638,19 @@ def bound_native(I, fr, bn, args, kwargs, n):
             b.items[:] = items
             return None
         if name == 'index':
+            if len(args) != 1:
+                raise Unsupported('list.index with start/stop', n)
+            # the first entry that is the argument or equals it (Python's ==, not identity)
             for i, x in enumerate(b.items):
-                if x is args[0] or (isinstance(x, str) and x == args[0]):
+                if x is args[0] or (isinstance(x, str) and isinstance(args[0], str) and x == args[0]):
                     return C(i)
+                if isinstance(x, (Rat, int, Fr)) and isinstance(args[0], (Rat, int, Fr)) and \
+                        not isinstance(x, bool) and not isinstance(args[0], bool):
+                    if I.compare('==', x, args[0], n):
+                        return C(i)
+                elif isinstance(x, (Obj, DictV, ListV)) and isinstance(args[0], (Obj, DictV, ListV)):
+                    if I.struct_eq(x, args[0]):
+                        return C(i)
             raise _RaisedExc(Raised('ValueError', n))
     if isinstance(b, (Rat, SumV)) and name == 'item':
         return b
@@ -3525,6 +3673,20 @@ def bound_native(I, fr, bn, args, kwargs, n):
             if len(args) > 1:
                 return args[1]
             raise _RaisedExc(Raised('KeyError', n, [k]))
+        if name == 'update' and isinstance(b, CounterV):
+            # Counter.update ADDS counts (of a mapping) or counts the items of an iterable
+            if kwargs or len(args) > 1:
+                raise Unsupported('Counter.update with keyword arguments', n)
+            if args and isinstance(args[0], DictV):
+                for k_, v_ in args[0].d.items():
+                    b.d[k_] = I.binop('+', b.d[k_], v_) if k_ in b.d else v_
+                    if k_ in args[0].keyobj:
+                        b.keyobj.setdefault(k_, args[0].keyobj[k_])
+            elif args:
+                for x_ in fr.iter_items(args[0], n):
+                    k_ = b.nkey(x_)
+                    b.d[k_] = I.binop('+', b.d[k_], C(1)) if k_ in b.d else C(1)
+            return None
         if name == 'update':
             if args and isinstance(args[0], DictV):
                 b.d.update(args[0].d)
@@ -3884,6 +4046,49 @@ def _np_zeros(val):
     return h
 
 
+_UNINIT = [0]
+
+
+def _np_empty(I, fr, args, kwargs, n):
+    """np.empty: a buffer of the asked shape whose entries are whatever was in memory - every entry a value of its
+    own that equals nothing else, so a result that still holds one shows"""
+    r = _np_zeros(0)(I, fr, args, kwargs, n)
+
+    def fill(v):
+        if isinstance(v, ListV):
+            for k_, x_ in enumerate(v.items):
+                if isinstance(x_, ListV):
+                    fill(x_)
+                else:
+                    _UNINIT[0] += 1
+                    v.items[k_] = I.D.sym('UNINIT#%d' % _UNINIT[0])
+    if isinstance(r, Elem):
+        _UNINIT[0] += 1
+        return Elem(I.D.sym('UNINIT#%d' % _UNINIT[0]))
+    fill(r)
+    return r
+
+
+LOG_METHODS = ('debug', 'info', 'warning', 'warn', 'error', 'exception', 'critical', 'log', 'setLevel', 'addHandler',
+               'removeHandler', 'addFilter', 'isEnabledFor')
+
+
+def _get_logger(I, fr, args, kwargs, n):
+    """logging: what is logged is not an observable of any property (it is neither a warning nor an exception); the
+    arguments of a logging call have been evaluated by the time the model is reached"""
+    kwargs.get('name')
+    lg = Obj('logger', closed=True)
+    for m_ in LOG_METHODS:
+        lg.opaque_methods[m_] = (lambda I_, o, a, k: False) if m_ == 'isEnabledFor' else (lambda I_, o, a, k: None)
+    return lg
+
+
+def _log_call(I, fr, args, kwargs, n):
+    for k_ in list(kwargs):
+        kwargs.get(k_)
+    return None
+
+
 def _np_dot(I, fr, args, kwargs, n):
     a = _vec_norm(_arg(args, kwargs, 0, 'a'))
     b = _vec_norm(_arg(args, kwargs, 1, 'b'))
@@ -4136,6 +4341,7 @@ def _re_generic(kind):
             mo.opaque_methods['end'] = lambda I_, o, a, k: C(spans[_as_int(a[0], n) if a else 0][1])
             mo.opaque_methods['span'] = lambda I_, o, a, k: ListV([C(x) for x in
                                                                    spans[_as_int(a[0], n) if a else 0]])
+            mo.pmv_getitem = lambda I_, fr_, idx, n_: group(I_, mo, [idx], {})        # match[g] is match.group(g)
             return mo
         try:
             if kind == 'split':
@@ -5070,6 +5276,10 @@ NATIVE = {
     'numpy.zeros_like': _np_like(0),
     'numpy.zeros': _np_zeros(0),
     'numpy.ones': _np_zeros(1),
+    'numpy.empty': _np_empty,
+    'logging.getLogger': _get_logger,
+    'logging.debug': _log_call, 'logging.info': _log_call, 'logging.warning': _log_call, 'logging.error': _log_call,
+    'logging.basicConfig': _log_call,
     'numpy.dot': _np_dot,
     'numpy.log': _np_unary('log'),
     'numpy.exp': _np_unary('exp'),
